@@ -5,12 +5,12 @@ import CJ.Drv.Util
 **One registration (and optionally a re-sent one), then the dial**
 `covert|<enableAllow>|<providedIsIP>|<split>|<domainHits>|<portOk>|<hostIsIP>|<resolved>|<blockHits>|<allowHits>|<dup>|<dial>|<dnsVisible>`
 * split: `E` or `hosthex,porthex`; hits: string of 0/1 (`-` = empty)
-* resolved: `E` (error), `N` (nil address) or `A,<ipNil 0/1>,<zonehex>,<IP.String() hex>`
+* resolved: `E` (error), `N` (nil address) or `A,<ipNil 0/1>,<zonehex>,<IP.String() hex>,<IP.IsUnspecified() 0/1>`
 * dup: `-`, or `D`: afterwards a second worker ingests another registration object for the same key
-* dial: `-`, or `O,<hosthex>,<port>,<hostIsIP 0/1>`: what `SplitHostPort` / `ParseIP` say about the string that
+* dial: `-`, or `O,<hosthex>,<port>,<hostIsIP 0/1>,<unspecified 0/1>`: what `SplitHostPort` / `ParseIP` say about the string that
   `Proxy` hands to `net.Dial`
 * dnsVisible: does one resolution of this host cause DNS traffic (the unit in which lookups are counted)
-→ `<outhex>|<lookup>|<lookups>|<stored covert hex or ->|<valid>|<dial: - | L,<hosthex>,<port> | R | B>`
+→ `<outhex>|<lookup>|<lookups>|<stored covert hex or ->|<valid>|<dial: - | L,<hosthex>,<port> | S,<port> (local system) | R | B>`
 
 **Several workers for one key, interleaved**
 `csched|<enableAllow>|<schedule: worker digits>|<check order: worker digits>|W|<the 8 per-worker fields>|W|…`
@@ -27,14 +27,14 @@ def hexToString (s : String) : Option String := do
 
 def stringToHex (s : String) : String := toHex s.toUTF8.toList
 
-/-- a resolution and the `IP.String()` text of its address -/
-def parseResolved (s : String) (ip : Nat) : Option (Resolved Nat × String) :=
+/-- a resolution, the `IP.String()` text of its address and its `IsUnspecified()` -/
+def parseResolved (s : String) (ip : Nat) : Option (Resolved Nat × String × Bool) :=
   match s.splitOn "," with
-  | ["E"] => some (.err, "")
-  | ["N"] => some (.nilAddr, "")
-  | ["A", n, z, t] => do
+  | ["E"] => some (.err, "", false)
+  | ["N"] => some (.nilAddr, "", false)
+  | ["A", n, z, t, u] => do
     let isNil ← parseBool n
-    some (.addr (if isNil then none else some ip) (← hexToString z), ← hexToString t)
+    some (.addr (if isNil then none else some ip) (← hexToString z), ← hexToString t, ← parseBool u)
   | _ => none
 
 /-- the answers about one worker's covert string -/
@@ -45,6 +45,7 @@ structure WorkerIn where
   allowHits : List Bool
   res : Resolved Nat
   text : String
+  unspec : Bool
 
 def parseWorker (idx : Nat) : List String → Option WorkerIn
   | [pip, split, dh, pok, hip, res, bh, ah] => do
@@ -52,9 +53,9 @@ def parseWorker (idx : Nat) : List String → Option WorkerIn
       match split.splitOn "," with
       | [h, p] => do some (some (h, ← hexToString p))     -- the host stays opaque (hex text)
       | _ => none)
-    let (r, text) ← parseResolved res idx
+    let (r, text, unspec) ← parseResolved res idx
     some { ans := { providedIsIP := ← parseBool pip, split := sp, portOk := ← parseBool pok, hostIsIP := ← parseBool hip },
-           domainHits := ← parseBits dh, blockHits := ← parseBits bh, allowHits := ← parseBits ah, res := r, text := text }
+           domainHits := ← parseBits dh, blockHits := ← parseBits bh, allowHits := ← parseBits ah, res := r, text := text, unspec := unspec }
   | _ => none
 
 /-- environment and policy of a run: networks 0..nb-1 = blocklist, nb.. = allowlist; an "IP" is the index
@@ -76,7 +77,8 @@ def mkEnv (ws : List WorkerIn) (ea : Bool) : Option (Env Nat Nat Nat × Policy N
               match ws.find? (fun w => hostOf w == host) with
               | some w => w.domainHits.getD p false
               | none => false
-            ipText := fun ip => match ws[ip]? with | some w => w.text | none => "" },
+            ipText := fun ip => match ws[ip]? with | some w => w.text | none => ""
+            unspecified := fun ip => match ws[ip]? with | some w => w.unspec | none => false },
           { block := List.range nb, allow := (List.range na).map (· + nb), enableAllow := ea, domains := List.range nd })
 
 def showStore (w : World) : String :=
@@ -106,14 +108,17 @@ def handle (args : List String) : Option String :=
       | some s =>
         if dial == "-" then some "-" else
         match dial.splitOn "," with
-        | ["O", h, p, isIP] => do
+        | ["O", h, p, isIP, un] => do
           let lit ← parseBool isIP
+          let unspec ← parseBool un
           let host := h
           let L : DialLib Nat := { splitHostPort := fun x => if x == s then some (host, p) else none,
-                                   parseIP := fun _ => if lit then some 0 else none }
+                                   parseIP := fun _ => if lit then some 0 else none,
+                                   unspecified := fun _ => unspec }
           -- at dial time the resolver answers something else: an error stands for "anything"
           match (netDial L s (fun _ => .err) wB.cursor).1 with
           | .literal _ port => some ("L," ++ host ++ "," ++ port)
+          | .localSystem port => some ("S," ++ port)
           | .resolved _ _ => some "R"
           | .bad => some "B"
         | _ => none)
